@@ -27,7 +27,7 @@ EXPLANATION = ('For each operator program three traces are proved equivalent for
                'Landscapes: flatten/unflatten round trip compared attribute by attribute over an enumerated family.')
 FUNCTIONS = ['every operator class (equinox field declarations, static vs. dynamic)', 'every mv reached', 'Landscape/StokesLandscape/HealpixLandscape/FrequencyLandscape.tree_flatten/tree_unflatten']
 BOUNDS = {'quick': 'catalogue leaves of 4 families, .T, closed-form .I, 25 composites per family; boolean-mask operators excluded from T2 (as in the statement); landscapes: nside 1,2,4,8 x 4 Stokes kinds x 2 dtypes, 2-d/3-d maps',
-          'thorough': '150 composites per family'}
+          'thorough': 'up to 2 500 composites per family'}
 STUBS = ['lineax.linear_solve contract stub for programs with a lazy inverse']
 ASSUMPTIONS = ['real arithmetic: equality of the IRs\' denotations; floating-point agreement of compiled vs op-by-op execution is only sampled numerically (rtol 1e-6)',
                'jax.jit with the operator as a plain argument (non-array leaves traced) is not part of the statement']
@@ -46,7 +46,7 @@ def cases(tier, seed):
         progs = list(base) + [('T', b) for b in base] + [('I', ('leaf', n, 0)) for n in c04.CLOSED_INV[fam]]
         comp = c01.gen_programs(fam, 'quick', seed)
         rnd.shuffle(comp)
-        progs += comp[: (150 if tier == 'thorough' else 25)]
+        progs += (c01.gen_programs(fam, 'thorough', seed)[:2500] if tier == 'thorough' else comp[:25])
         out += [('jit', fam, e) for e in progs]
     for nside in (1, 2, 4, 8):
         for st in ('I', 'QU', 'IQU', 'IQUV'):
